@@ -163,6 +163,8 @@ type Schema struct {
 	Props    []Prop
 	Required []string
 	AllOf    []*Schema
+	// keywords the analyser does not look at (not part of the model): they must never produce a difference or a crash
+	Noise map[string]interface{}
 }
 
 func (x *Schema) JSON() map[string]interface{} {
@@ -202,6 +204,9 @@ func (x *Schema) JSON() map[string]interface{} {
 			xs[i] = a.JSON()
 		}
 		m["allOf"] = xs
+	}
+	for k, v := range x.Noise {
+		m[k] = v
 	}
 	return m
 }
